@@ -67,7 +67,8 @@ Theorem C13_oracle_sound : forall k,
      (forall f, s_newest x = Some f -> s_t x - f < bound (c_cfg k)) /\
      (s_extrem x = false -> s_newest x <> None)) /\
   c_left_behind k = 0 /\ (forall b, In b (c_forced_after_removal k) -> b = true) /\
-  (forall b, In b (c_forced_ok_has_file k) -> b = true).
+  (forall b, In b (c_forced_ok_has_file k) -> b = true) /\
+  (forall b, In b (c_forced_ok_old_existed k) -> b = true).
 Proof. exact check_C13_spec. Qed.
 
 (* a forced refresh reports success only if the old lock file was there at both existence checks, and then
